@@ -471,6 +471,47 @@ def payload_of(c, l, extra=None):
     return p
 
 
+
+def phase_folder(chk):
+    """folder-output mode through the real binary: crate-level documentation (`//!` lines and `#![doc = ..]` at the top of lib.rs and
+    of another file of the crate) full of terminators, next to documented items, import blocks and per-crate headers.  Crate docs
+    are no docs of a type, field or variant, so nothing obliges the tool to reproduce them; whatever of them reaches an output file
+    must be read as comment text by the extracted reference lexer (seeded C15_f: crate docs copied raw into the block-comment
+    header of the folder-mode files)."""
+    frags = ['ZqCRATEDOC alpha', 'ZqTAIL beta', 'ZqTAILPY gamma', 'ZqLAST delta']
+    line = 'ZqCRATEDOC alpha */ ZqTAIL beta \\"\\"\\" ZqTAILPY gamma /* ZqLAST delta'
+    inner = [f'//! {line.replace(chr(92) + chr(34), chr(34))}\n', f'#![doc = "{line}"]\n']
+    item = '/// an item doc\n#[typeshare]\npub struct %s { /// a field doc\n    pub x: u8 }\n'
+    wss = []
+    for spelling in inner:
+        wss.append({'alpha/src/lib.rs': spelling + item % 'A1', 'alpha/src/other.rs': spelling + item % 'A2',
+                    'beta/src/lib.rs': spelling + 'use alpha::A1;\n' + '#[typeshare]\npub struct B1 { pub a: A1 }\n'})
+    for w, files in enumerate(wss):
+        d = vf.tmpdir('verif-c15-')
+        for rel, txt in files.items():
+            q = d / 'ws' / rel
+            q.parent.mkdir(parents=True, exist_ok=True)
+            q.write_text(txt)
+        for l, ext, extra, cfg in LANGS:
+            out = d / f'out_{l}'
+            out.mkdir()
+            p = subprocess.run(['timeout', '30', str(vf.TYPESHARE), '--lang', l] + extra + ['--output-folder', str(out), str(d / 'ws')], capture_output=True, text=True)
+            chk.evaluations += 1
+            chk.count('folder_runs')
+            payload = {'phase': 'folder', 'lang': l, 'files': files}
+            if p.returncode != 0:
+                chk.violation(f'folder-{w}-{l}', dict(payload, rc=p.returncode, stderr=p.stderr[-300:]), f'{l}: the real binary fails on a workspace whose files carry crate-level docs')
+                continue
+            outs = {f.name: f.read_text(errors='replace') for f in sorted(out.iterdir()) if f.is_file()}
+            res = vf.model([f'(c15 {l} ((struct {Lst(frags, S)})) {S(t)} sentinel)' for t in outs.values()])
+            for (fn, t), r in zip(outs.items(), res):
+                if vf.sx_get(r, 'contained') != 'true':
+                    chk.violation(f'folder-{w}-{l}', dict(payload, file=fn, text=t[:2500]), f'{l}, folder mode, {fn}: text of the crate-level documentation is written outside a comment')
+                    break
+            else:
+                chk.nontrivial.add(('folder', l, w))
+
+
 def run(chk):
     chk.rule = ('a seeded program (lib/progs.py: structs, unit structs, newtypes, aliases, unit enums, tagged enums with unit/tuple/struct variants) whose '
                 'documentable positions (type, field, variant, struct-variant field, alias) carry 1-3 doc attributes built from unique sentinels '
@@ -488,6 +529,8 @@ def run(chk):
     chk.prepare(need_cli=True)
     if not chk.harness_ok:
         return
+    if chk.cli_ok:
+        phase_folder(chk)
     n = 1200 if chk.tier == 'quick' else 15000
     cases = gen_cases(chk, n)
     judge(chk, cases)
